@@ -65,8 +65,7 @@ def obligations(cx):
                   statement="feed_compositions[0] = initial composition converted to mass fraction")
             if cfg.iso:
                 ft = st.field('feed_temperature')
-                ok = isinstance(ft, Seq)
-                cx.ob(t + ".init.temperature", st.pc, eq(ft.fn(k), T0) if ok else FALSE, function=fn, statement="isothermal: feed_temperature[k] = initial temperature for every k")
+                cx.ob(t + ".init.temperature", st.pc, eq(need_seq(ft, 'feed_temperature').fn(k), T0), function=fn, statement="isothermal: feed_temperature[k] = initial temperature for every k")
             else:
                 it_ = st.init('feed_temperature')
                 cx.ob(t + ".init.temperature", st.pc, eq(lift(it_[0]), T0) if len(it_) == 1 else FALSE, function=fn, statement="feed_temperature[0] = initial temperature")
@@ -76,14 +75,14 @@ def obligations(cx):
                 lens.append(eq(series_len(st.field(name)), N))
             cx.ob(t + ".lengths", st.pc, band(*lens), function=fn, statement="every series of the returned model has exactly number_of_steps entries")
             tm = st.field('time')
-            cx.ob(t + ".time-grid", st.pc + [k >= 0, k < N], eq(tm.fn(k), DT * k) if isinstance(tm, Seq) else FALSE, function=fn, statement="time[k] = k x step length")
+            cx.ob(t + ".time-grid", st.pc + [k >= 0, k < N], eq(need_seq(tm, 'time').fn(k), DT * k), function=fn, statement="time[k] = k x step length")
             same = True
             for fld, lst in (('feed_mass', 'feed_mass'), ('feed_compositions', 'feed_composition'), ('partial_fluxes', 'partial_fluxes'), ('permeate_composition', 'permeate_composition')):
                 v = st.field(fld)
                 same = same and isinstance(v, Post) and lst in st.lists and v.grow is st.lists[lst]
             cx.ob(t + ".model-exposes-the-series", [], blit(same), kind='paths', function=fn,
                   statement="the reported series are the lists built by the step loop (look-ahead element removed)")
-            if si == 0: cx.must_fail(t + ".time-grid", st.pc + [k >= 1, k < N], eq(tm.fn(k), DT * (k + 1)) if isinstance(tm, Seq) else FALSE)
+            if si == 0: cx.must_fail(t + ".time-grid", st.pc + [k >= 1, k < N], eq(need_seq(tm, 'time').fn(k), DT * (k + 1)))
     recurrence_differential(cx, kept)
     cx.assume_note("induction over steps: prefix = base case, generic iteration = step, append-only frame checked syntactically (DESIGN 2.6); the induction principle itself is trusted")
     cx.assume_note("calculate_partial_fluxes, get_permeance, find_best_fit, PervaporationFunction.__call__, TemperatureProgram.program by contract")
